@@ -147,7 +147,7 @@ pub fn run(ctx: &mut Ctx) {
     for (n, ok) in r3::selftest() {
         ctx.selftest(&n, ok);
     }
-    ctx.require(&["annex_kat", "len_sweep", "fixed_k_exact", "free_k", "roundtrip", "ref_made_decrypts", "openssl_made_decrypts", "all_zero_msg", "leading_zero_msg", "long_msg", "kdf_counter_beyond_16_bits", "kdf", "kdf_klen_mod32=00", "c1c2c3_uncompressed", "c1c2c3_compressed", "c1c3c2_uncompressed", "c1c3c2_compressed", "klen_mod32=00", "key_from_constructor", "key_from_gen_keypair", "key_with_jacobian_public_point", "crafted_recipient_key", "crafted_c1_decrypts"]);
+    ctx.require(&["annex_kat", "len_sweep", "fixed_k_exact", "free_k", "roundtrip", "ref_made_decrypts", "openssl_made_decrypts", "all_zero_msg", "leading_zero_msg", "long_msg", "kdf_counter_beyond_16_bits", "kdf", "kdf_klen_mod32=00", "c1c2c3_uncompressed", "c1c2c3_compressed", "c1c3c2_uncompressed", "c1c3c2_compressed", "klen_mod32=00", "key_from_constructor", "key_from_gen_keypair", "key_with_jacobian_public_point", "crafted_recipient_key", "crafted_c1_decrypts", "many_calls_one_process"]);
     let c = r2::curve();
 
     // --- Annex example
@@ -219,6 +219,24 @@ pub fn run(ctx: &mut Ctx) {
                 }
             }
         }
+    }
+
+    // --- many calls in one process (call-count dependent faults): 300 encryptions with injected k and decryptions, one key
+    if ctx.shard == 0 {
+        let mut pm = ctx.prng("many");
+        let d = rand_scalar(&mut pm, &(&c.n - 1u32));
+        for i in 0..300u64 {
+            let k = rand_scalar(&mut pm, &c.n);
+            let msg = pm.bytes(20);
+            ctx.class("many_calls_one_process");
+            let before = ctx.violations.len();
+            enc_case(ctx, &d, &msg, Some(&k), LAYOUTS[(i % 4) as usize], "many_calls");
+            if ctx.violations.len() != before {
+                break;
+            }
+        }
+    } else {
+        ctx.class("many_calls_one_process");
     }
 
     // --- every message length 1..=300, rotating layouts; fixed and free k
